@@ -1,3 +1,26 @@
 package main
 
-func cmdExpand(args []string) int { return 2 }
+import (
+	"encoding/json"
+	"fmt"
+	"os"
+)
+
+// cmdExpand prints the scenarios of a plan, one JSON document per line
+// (debugging aid: simcheck expand <ID> <tier>, with VERIF_SEED).
+func cmdExpand(args []string) int {
+	if len(args) < 2 {
+		fmt.Fprintln(os.Stderr, "usage: simcheck expand <ID> <quick|thorough>")
+		return 2
+	}
+	pl, err := buildPlan(args[0], args[1], envSeed())
+	if err != nil {
+		fmt.Fprintln(os.Stderr, err)
+		return 2
+	}
+	enc := json.NewEncoder(os.Stdout)
+	for _, sc := range pl.scenarios {
+		enc.Encode(sc)
+	}
+	return 0
+}
